@@ -77,6 +77,12 @@ class Prov:
                 t = ("arg", l, b.local_name(l))
                 self.cache[l] = t
                 return t
+            # a parameter that is also assigned in the body has (at least) two definitions: its value on
+            # entry and the assignment. Never look through it: reads are told apart by their SSA version.
+            if any(d[2] in ("assign", "call") for d in ds):
+                t = ("local", l, b.local_name(l))
+                self.cache[l] = t
+                return t
         d = b.single_def(l)
         if d is None:
             t = ("local", l, b.local_name(l))
